@@ -285,7 +285,12 @@ func ByteMutate(t *rapid.T, p *Profile, doc []byte, label string) []byte {
 }
 
 func docKind(t *rapid.T, p *Profile, maxTok int, label string) ([]byte, string) {
-	switch k := rapid.IntRange(0, 12).Draw(t, label+"kind"); {
+	switch k := rapid.IntRange(0, 13).Draw(t, label+"kind"); {
+	case k == 13:
+		if rapid.IntRange(0, 2).Draw(t, label+"nl") == 0 { // rare: these documents are 1-8 KiB each
+			return p.Repair(NearLimitDoc(t, label+"near")), "near-limit"
+		}
+		return Soup(t, p, maxTok, label+"soup"), "soup"
 	case k == 12:
 		return LongDoc(t, p, label+"long"), "long"
 	case k == 11:
